@@ -12,7 +12,7 @@ import est_common as ec
 
 PROP_FILE = 'theories/Properties/C06.v'
 MODEL_FILES = ['theories/Base/Rows.v', 'theories/Model/Estimators.v', 'theories/Model/Variance.v', 'theories/Spec/Measures.v']
-GEN_GROUPS = ['calc']
+GEN_GROUPS = ['calc', 'ic', 'aipw']
 RULE = ('alpha grid {0.05, 0.049999, 0.5, 1e-6, 0.999, 0.01, 0.2} x: count calculators on random tables; AIPTW / TMLE / '
         'StochasticTMLE / IPTW on random mixed frames; calculate_joint_estimate on random vectors and the four cross-fit '
         'classes with sklearn learners; per fit: limits = est -/+ norm.ppf(1-alpha/2)*SE on the documented scale, nestedness '
@@ -209,6 +209,16 @@ def dr_se_part(ctx, fails):
                 cell = df[(df['S'] == df.loc[idx, 'S']) & (df['A'] == df.loc[idx, 'A']) & df['Y'].notna()]
                 if len(cell) > 2 and (not binary or (garbage or cell['Y'].drop(idx).nunique() == 2)):
                     df.loc[idx, 'Y'] = np.nan
+        if i % 3 != 1:
+            # rows the estimators document to drop (a NaN in a column that is not the outcome, here one no model uses):
+            # n in "standard deviation over root n" is the number of rows analysed, not the number handed in
+            df = df.copy()
+            df['Z'] = 1.0
+            extra = df.loc[ctx.rng.sample(list(df.index), max(1, len(df) // 4))].copy()
+            extra['Z'] = np.nan
+            df = pd.concat([df, extra], ignore_index=True)
+            df = df.loc[ctx.rng.sample(list(df.index), len(df))].reset_index(drop=True)
+            ctx.count('dr_se: frames with rows dropped for a missing non-outcome value')
         payload = {'part': 'dr_se', 'data': {c: [None if (isinstance(v, float) and v != v) else v for v in df[c].tolist()] for c in df.columns}, 'meta': meta}
         gt = [ctx.rng.choice([0.25, 0.375, 0.5, 0.625, 0.75]) for _ in range(meta['n_strata'])]
         q1t = [ctx.rng.choice([0.25, 0.5, 0.625, 0.75]) for _ in range(meta['n_strata'])]
